@@ -329,6 +329,8 @@ func runTwoHubs(id int, seed int64, nops int) *thResult {
 			k = 93 + rnd.Intn(5)
 			if rnd.Intn(4) == 0 {
 				k = 200
+			} else if rnd.Intn(6) == 0 {
+				k = 201
 			}
 		}
 		switch {
@@ -425,6 +427,37 @@ func runTwoHubs(id int, seed int64, nops int) *thResult {
 					res.bad = append(res.bad, fmt.Sprintf("C10 the user of %s removed the peer (%s) while %s was establishing the connection to it: about 1.5 s later %s trusts the peer = %v and holds a connection in handshake state %d", n.name, what, n.name, n.name, f.trusted, f.connState))
 				}
 			}
+		case k == 201:
+			// the hub is shut down while it is establishing a connection; afterwards the application starts a new one
+			if rnd.Intn(3) != 0 && o.running {
+				o.hub.RegisterRemoteSKI(n.ski)
+				reg[o.name] = true
+				cancelled[o.name] = false
+			}
+			n.hub.RegisterRemoteSKI(o.ski)
+			n.mdns.publish(o.entry())
+			a.via.mu.Lock()
+			lat2 := a.via.lat
+			a.via.mu.Unlock()
+			time.Sleep(time.Duration(1+rnd.Intn(5)) * lat2)
+			n.hub.Shutdown()
+			time.Sleep(time.Duration(1200+rnd.Intn(600)) * time.Millisecond)
+			if f := n.facts(o); f.connState != -1 {
+				res.bad = append(res.bad, fmt.Sprintf("C10 hub %s was shut down while it was establishing a connection: about 1.5 s after Shutdown returned it holds a registered connection in handshake state %d (set up %d, disconnected %d)", n.name, f.connState, f.setups, f.discs))
+			}
+			n.mu.Lock()
+			n.writers, n.spines = nil, nil
+			n.mu.Unlock()
+			n.start()
+			if pinned[n.name] != "" {
+				n.hub.ServiceForSKI(o.ski).SetShipID(pinned[n.name])
+			}
+			if auto[n.name] {
+				n.hub.SetAutoAccept(true)
+			}
+			n.hub.RegisterRemoteSKI(o.ski)
+			reg[n.name], vis[n.name], cancelled[n.name] = true, false, false
+			op("reg" + n.name + ",vis" + n.name + ",shutdown" + n.name + "DuringDial,restart" + n.name)
 		case k < 96 && targeted:
 			// the path between the hubs fails at the moment this hub's connection is in a chosen handshake state
 			n.hub.RegisterRemoteSKI(o.ski)
